@@ -948,8 +948,11 @@ func (r *Raft) AppendEntries(request *AppendEntriesRequest, response *AppendEntr
 		r.logger.Fatalf("failed to append entries to log: %v", err)
 	}
 
-	if request.LeaderCommit > r.commitIndex {
-		r.commitIndex = numeric.Min(request.LeaderCommit, r.log.LastIndex())
+	// Only entries up to the last entry covered by this request are known to match
+	// the leader's log; entries beyond it may be left over from an older term.
+	lastVerifiedIndex := request.PrevLogIndex + uint64(len(request.Entries))
+	if index := numeric.Min(request.LeaderCommit, lastVerifiedIndex); index > r.commitIndex {
+		r.commitIndex = index
 		r.applyCond.Broadcast()
 	}
 
